@@ -2890,6 +2890,67 @@ def _visited_sets(f):
     return ins & con
 
 
+def _change_flag_and_carriers(f):
+    """the local tested by `while changed` and the locals that are OR-ed into it"""
+    body = f["hir"]["value"]
+    CH = None
+    for l in (l for l in walk(body) if l.get("k") == "Loop" and l.get("src") == "While"):
+        for i in walk(l["body"], pats=False):
+            if i.get("k") == "If" and peel(i["cond"]).get("k") == "Path" and peel(i["cond"]).get("res_kind") == "Local":
+                CH = peel(i["cond"])["res"]
+                break
+        if CH:
+            break
+    carriers = {CH}
+    grew = True
+    while grew:
+        grew = False
+        for a in walk(body):
+            if a.get("k") == "AssignOp" and a["op"] == "BitOrAssign" and ekey(a["l"]) in carriers:
+                r = peel(a["r"])
+                if r.get("k") == "Path" and r.get("res_kind") == "Local" and r["res"] not in carriers:
+                    carriers.add(r["res"])
+                    grew = True
+    return CH, carriers
+
+
+@rule("C12", "C12.j.growth-of-the-evaluated-set-triggers-a-sweep", floor=2)
+def c12j(F, R):
+    """a pass whose nodes wait for an evaluated predecessor (C12.h) has a second piece of state besides the facts: the set of evaluated nodes. The first evaluation of a node may store exactly the initial fact (no setter reports a change) and still unblocks its successors, so every `insert` into that set inside the sweep raises the loop flag when the set grew - otherwise the `while changed` loop stops with reachable nodes never evaluated, the facts are not a solution of the equations, and the result depends on the layout of the blocks"""
+    for f, name in ((_avpass_run(F), "AvailableValuePass"), (_livepass_run(F), "LivenessPass")):
+        body = f["hir"]["value"]
+        vs = _visited_sets(f)
+        if not vs:
+            continue
+        CH, carriers = _change_flag_and_carriers(f)
+        ins = [m for fl in for_loops(body) for m in walk(fl["body"], pats=False)
+               if m.get("k") == "MethodCall" and m["name"] == "insert" and ekey(m["recv"]).lstrip("&*") in vs]
+        good = set()
+        for a in walk(body):
+            if a.get("k") == "AssignOp" and a["op"] == "BitOrAssign" and ekey(a["l"]) in carriers and peel(a["r"]).get("k") == "MethodCall":
+                good.add(id(peel(a["r"])))
+            if a.get("k") == "Let" and a.get("pat", {}).get("k") == "PBinding" and a["pat"].get("name") in carriers - {CH} and a.get("init"):
+                good.add(id(peel(a["init"])))
+            if a.get("k") == "If" and peel(a["cond"]).get("k") == "MethodCall":
+                # `if visited.insert(n) { changed = true; }`
+                raises = any((s.get("k") == "Assign" and ekey(s["l"]) in carriers and lit_value(s["r"]) is True)
+                             or (s.get("k") == "AssignOp" and s["op"] == "BitOrAssign" and ekey(s["l"]) in carriers and lit_value(s["r"]) is True)
+                             for s in walk(a["then"], pats=False))
+                if raises:
+                    good.add(id(peel(a["cond"])))
+        seen = {}
+        for m in ins:
+            v = ekey(m["recv"]).lstrip("&*")
+            seen[v] = seen.get(v, 0) + 1
+            key = f"{name}|{seen[v]}"
+            if id(m) in good:
+                R.ok(key, detail=f"{name}: the growth of the evaluated set is OR-ed into the loop flag", where=loc(m))
+            else:
+                R.bad(f"{name}|insert-result-dropped", f"{name}: the result of the insert into the evaluated set does not reach the loop flag `{CH}`: a first evaluation that stores the initial fact unblocks the successors of the node and no further sweep evaluates them", loc(m))
+        if not ins:
+            R.bad(f"{name}|no-insert", f"{name}: nodes wait for an evaluated predecessor but nothing is added to the evaluated set inside the sweep", f["sp"])
+
+
 @rule("C02", "C02.j.every-sweep-evaluates-every-node", floor=2)
 @rule("C12", "C12.g.every-sweep-evaluates-every-node", floor=2)
 def c12g(F, R):
